@@ -10,4 +10,17 @@ ASSUME \A n \in {50, 51, 53} : \A m \in {1, 7, 200} :
              Q == [P EXCEPT !.sz = [i \in 1..m |-> ChunkSz]]
              R == [P EXCEPT !.sz = [i \in 1..(n + m) |-> ChunkSz]]
          IN  IdealAppend(TrickleLayout(P, FALSE), Q) = TrickleLayout(R, FALSE)
+
+(* The transcription of the as-built Append (deviation Dev_C08_AppendTooDeep): it always keeps sizes
+   and content right, and it breaks the depth rule only when the base ends on a layer boundary --
+   e.g. w = 2: one chunk + 4 appended, while 3 chunks (one sub-trickle started) + 4 appended is fine. *)
+PB(n) == [w |-> 2, lk |-> "pb", sz |-> [i \in 1..n |-> ChunkSz]]
+ASSUME /\ ~TrickleShapeOK(AsBuiltAppend(TrickleLayout(PB(1), FALSE), PB(4)), 2, "pb")
+       /\ TrickleShapeOK(AsBuiltAppend(TrickleLayout(PB(3), FALSE), PB(4)), 2, "pb")
+ASSUME \A n \in 0..11, m \in {1, 3, 5, 11, 12} :
+         LET b == TrickleLayout(PB(n), FALSE)
+             t == AsBuiltAppend(b, PB(m))
+         IN  /\ AppendContentOK(b, t, m * ChunkSz)
+             /\ LeafSizes(t) = [i \in 1..(n + m) |-> ChunkSz]
+             /\ (~TrickleShapeOK(t, 2, "pb") => OnLayerBoundary(b, 2))
 =============================================================================
